@@ -466,18 +466,44 @@ class _ConstantOnly(ValueError):
 _PY_SCALARS = (bool, int, float)
 
 
-def _resolve_weak_scalars(input_vars: Sequence[ArrayLike]) -> Tuple[ArrayLike, ...]:
+def _resolve_weak_scalars(
+    Op: Type[Operation], input_vars: Sequence[ArrayLike], dtype: DTypeLike = None
+) -> Tuple[ArrayLike, ...]:
     """Python scalars are 'weakly typed' under NumPy's promotion rules (NEP 50):
     next to arrays they take on the arrays' dtype, e.g. ``float32_array * 2.0`` is
     float32. Here they are cast to the 0-d array NumPy would treat them as, so that
     an operation on tensors promotes exactly like the one on the underlying arrays."""
-    others = [
-        v.dtype if isinstance(v, (Tensor, np.ndarray, np.generic)) else np.asarray(v).dtype
-        for v in input_vars
-        if type(v) not in _PY_SCALARS
-    ]
+
+    def dtype_of(v):
+        if isinstance(v, (Tensor, np.ndarray, np.generic)):
+            return v.dtype
+        return np.asarray(v).dtype
+
+    ufunc = getattr(Op, "numpy_ufunc", None)
+    if isinstance(ufunc, np.ufunc) and len(input_vars) == ufunc.nin:
+        # ask the ufunc itself which dtypes its loop will use
+        spec = tuple(
+            type(v) if type(v) in (int, float) else dtype_of(v) for v in input_vars
+        ) + (None,) * ufunc.nout
+        sig = None
+        if dtype is not None:
+            sig = (None,) * ufunc.nin + (np.dtype(dtype),) * ufunc.nout
+        try:
+            loop = ufunc.resolve_dtypes(spec, signature=sig)
+        except Exception:
+            loop = None
+        if loop is not None:
+            return tuple(
+                np.asarray(v, dtype=loop[n]) if type(v) in (int, float) else v
+                for n, v in enumerate(input_vars)
+            )
+
+    others = [dtype_of(v) for v in input_vars if type(v) not in _PY_SCALARS]
     if not others:
         return tuple(input_vars)
+    if dtype is not None:
+        # the scalar is cast straight to the dtype the computation is carried out in
+        others.append(np.dtype(dtype))
     return tuple(
         np.asarray(v, dtype=np.result_type(*others, v))
         if type(v) in _PY_SCALARS
@@ -1118,7 +1144,11 @@ class Tensor:
         _uniques_bases_then_arrs = ()
 
         if any(type(var) in _PY_SCALARS for var in input_vars):
-            input_vars = _resolve_weak_scalars(input_vars)
+            input_vars = _resolve_weak_scalars(
+                Op,
+                input_vars,
+                dtype=None if op_kwargs is None else op_kwargs.get("dtype"),
+            )
 
         tensor_vars = tuple(
             cls(var, constant=True, copy=False) if not isinstance(var, Tensor) else var
